@@ -267,6 +267,8 @@ def build_overlay(dest, exts=None, sim_omp=False, sim_clock=False, repo=None, lo
                 jobs.append((name, s, spec['lang'], fl, spec['inc']))
         else:
             pre = os.path.join(repo, so_name)
+            if not os.path.exists(pre) and GEN_FALLBACK and os.path.exists(os.path.join(GEN_FALLBACK, so_name)):
+                pre = os.path.join(GEN_FALLBACK, so_name)
             if name in exts and not have_gen:
                 info.setdefault('missing_generated', []).append(name)
             if not os.path.exists(pre):
